@@ -312,6 +312,38 @@ impl FilePersist {
         Ok(count)
     }
 
+    /// Metadata file of a shard.
+    ///
+    /// `sanitize_name` is not injective ("a_b:c" and "a:b_c" both give `a_b_c`),
+    /// so the plain file name belongs to the shard recorded in it; another shard
+    /// with the same sanitized name gets a file name that carries a hash of its
+    /// full name, and never overwrites the first one's metadata. Shards are found
+    /// by listing the directory, so either name is loaded.
+    fn shard_meta_path(&self, shard: &str) -> PathBuf {
+        let dir = self.config.path.join("shards");
+        let plain = dir.join(format!("{}.json", sanitize_name(shard)));
+        // FNV-1a: stable across runs and toolchains
+        let mut hash: u64 = 0xcbf2_9ce4_8422_2325;
+        for byte in shard.bytes() {
+            hash ^= u64::from(byte);
+            hash = hash.wrapping_mul(0x0000_0100_0000_01b3);
+        }
+        let hashed = dir.join(format!("{}~{hash:016x}.json", sanitize_name(shard)));
+        // a shard that once had to take the hashed name keeps it
+        if hashed.exists() {
+            return hashed;
+        }
+        let taken_by_other = fs::read_to_string(&plain)
+            .ok()
+            .and_then(|content| serde_json::from_str::<ShardMeta>(&content).ok())
+            .is_some_and(|existing| existing.name != shard);
+        if taken_by_other {
+            hashed
+        } else {
+            plain
+        }
+    }
+
     /// Save shard metadata to disk using atomic write-to-temp+rename.
     ///
     /// Writes to `{name}.json.tmp`, calls `sync_all()`, then renames to `{name}.json`.
@@ -319,8 +351,8 @@ impl FilePersist {
     /// or new version - never a corrupt half-written state.
     fn save_shard_meta(&self, meta: &ShardMeta) -> StorageResult<()> {
         let dir = self.config.path.join("shards");
-        let final_path = dir.join(format!("{}.json", sanitize_name(&meta.name)));
-        let tmp_path = dir.join(format!("{}.json.tmp", sanitize_name(&meta.name)));
+        let final_path = self.shard_meta_path(&meta.name);
+        let tmp_path = final_path.with_extension("json.tmp");
         let content = serde_json::to_string_pretty(meta)
             .map_err(|e| StorageError::Other(format!("Failed to serialize shard metadata: {e}")))?;
 
@@ -658,11 +690,7 @@ impl PersistBackend for FilePersist {
 
         // Step 4: Delete metadata file LAST (crash-safe ordering)
         // After this, the shard is fully removed from disk.
-        let meta_path = self
-            .config
-            .path
-            .join("shards")
-            .join(format!("{}.json", sanitize_name(shard)));
+        let meta_path = self.shard_meta_path(shard);
         if meta_path.exists() {
             let _ = fs::remove_file(&meta_path);
             sync_directory(&self.config.path.join("shards"));
